@@ -48,12 +48,9 @@ def decode_roots(model):
 def type_level_decode_calls(f):
     """Calls  X.decode(data, offset[, ...])  (>= 2 positional args) in f."""
     out = []
+    aliases = loops.decode_aliases(f)
     for n in walk_no_nested(f):
-        if isinstance(n, ast.Call) and isinstance(n.func, ast.Attribute) and n.func.attr == 'decode' \
-                and (len(n.args) + len([k for k in n.keywords if k.arg in ('offset',)])) >= 2:
-            # exclude bytes.decode('ascii') etc: first arg a string constant
-            if n.args and isinstance(n.args[0], ast.Constant):
-                continue
+        if isinstance(n, ast.Call) and loops.is_type_decode_call(n, aliases):
             out.append(n)
     return out
 
@@ -71,7 +68,13 @@ def sentinel_idiom(call, f):
             return 'RETURN', True, 'returned unchanged to the caller'
         return 'UNCHECKED', False, 'result used inside a return expression'
     # TAG-SELECTED: receiver bound from self.tag_to_*[...]
-    recv = call.func.value
+    recv = call.func.value if isinstance(call.func, ast.Attribute) else None
+    if isinstance(call.func, ast.Name):
+        # bound-method alias  dec = x.decode ; dec(data, offset): follow to the receiver
+        for a in walk_no_nested(f):
+            if isinstance(a, ast.Assign) and isinstance(a.value, ast.Attribute) and a.value.attr == 'decode' \
+                    and call.func.id in [x for t in a.targets for x in flow.target_names(t)]:
+                recv = a.value.value
     if isinstance(recv, ast.Name):
         binds = [a for a in walk_no_nested(f) if isinstance(a, ast.Assign) and recv.id in [x for t in a.targets for x in flow.target_names(t)]]
         if binds and all(isinstance(a.value, ast.Subscript) and ast.unparse(a.value.value).startswith('self.tag_to_') for a in binds):
@@ -400,7 +403,7 @@ MUTANTS = [
             # Invalid Tag
             check_decode_error(self.element_type, decoded_element, data, offset)
 """, new="""            decoded_element, offset = self.element_type.decode(data, offset)
-""", expect=['C08.R1', 'C08.R2']),
+""", expect=['C08.R1', 'C08.R2'], quick=True),
     dict(name='decode_members: no-progress break removed', file=BER,
          old="""            if not decode_success:
                 # No members are able to decode data, exit loop
@@ -430,7 +433,11 @@ MUTANTS = [
          new="""    data_length = len(encoded)
     if enforce_definite and offset + length > data_length:""", expect='C08.R5'),
     dict(name='oid subidentifier returns offset unchanged', file=BER,
-         old="    return decoded, offset + 1\n\n\ndef encode_real", new="    return decoded, offset\n\n\ndef encode_real", expect='C08.R2', quick=True),
+         old="""    decoded += data[offset]
+
+    return decoded, offset + 1""", new="""    decoded += data[offset]
+
+    return decoded, offset""", expect='C08.R2', quick=True),
     dict(name='ExplicitTag.decode_content uses value before the check', file=BER,
          old="""        values, end_offset = self.inner.decode(data, offset)
 
@@ -452,11 +459,17 @@ MUTANTS = [
          old="""    def decode_unbound(self, decoder):
         decoder.align()
         decoded = []
-""", new="""    def decode_unbound(self, decoder):
+
+        for length in decoder.read_length_determinant_chunks():
+            for _ in range(length):
+                decoded_element = self.element_type.decode(decoder)""", new="""    def decode_unbound(self, decoder):
         decoder.align()
         decoded = []
         self._last_decoded = decoded
-""", expect='C08.R4'),
+
+        for length in decoder.read_length_determinant_chunks():
+            for _ in range(length):
+                decoded_element = self.element_type.decode(decoder)""", expect='C08.R4', quick=True),
 ]
 REFACTORS = [
     dict(name='inline TAG_MISMATCH test instead of check_decode_error', file=BER,
